@@ -20,3 +20,5 @@ def run(ctx):
     ctx.guard(add_guard_rule, ctx, "C15.add-guard")
     ctx.guard(ctor_rule, ctx, "C15.ctor")
     ctx.guard(getitem_rule, ctx, "C15.getitem")
+    from ..rules_ast import record_instance_state_rule
+    ctx.guard(record_instance_state_rule, ctx, "C15.no-derived-state", ["__contains__", "__getitem__", "__add__", "__radd__", "__len__"])
